@@ -386,7 +386,7 @@ func ruleDivZero(rule string) ruleFn {
 }
 
 var divisorExceptions = map[string]string{
-	"replica.construct | $3":              "the sector size handed to construct is the server's default (4096 / command line flag) or the one construct itself recorded in volume.meta",
+	"replica.construct | $3":          "the sector size handed to construct is the server's default (4096 / command line flag) or the one construct itself recorded in volume.meta",
 	"util.ConvertHumanReadable | phi": "starts at 1024 and is only ever multiplied by 1024",
 }
 
